@@ -58,18 +58,28 @@ CONTRACTS = [
 ]
 
 
-def _param(name):
+def _param(name, table="shipped"):
     from abtem.parametrizations import KirklandParametrization, LobatoParametrization, PengParametrization
 
-    if name == "peng_low":
-        return PengParametrization("peng_low.json")
-    return {"lobato": LobatoParametrization, "kirkland": KirklandParametrization, "peng": PengParametrization}[name]()
+    cls = {"lobato": LobatoParametrization, "kirkland": KirklandParametrization, "peng": PengParametrization,
+           "peng_low": PengParametrization}[name]
+    base = PengParametrization("peng_low.json") if name == "peng_low" else cls()
+    if table == "shipped":
+        return base
+    # the same table handed over as a dict of float64 arrays (the documented `parameters: dict[str, np.ndarray]` form,
+    # also what Parametrization.from_json stores)
+    return cls(parameters={k: np.array(v, dtype=np.float64) for k, v in base.parameters.items()})
 
 
 def cases(tier, seed):
     for name in BOUNDS["parametrizations"]:
-        for el in _param(name).parameters.keys():
-            yield dict(parametrization=name, element=str(el), tier=tier, seed=int(seed))
+        els = [str(e) for e in _param(name).parameters.keys()]
+        for el in els:
+            yield dict(parametrization=name, element=el, tier=tier, seed=int(seed))
+        # the same elements with the table given as ndarrays and the four functions requested in another order
+        sub = els if tier == "thorough" else els[:: max(1, len(els) // 8)]
+        for j, el in enumerate(sub):
+            yield dict(parametrization=name, element=el, tier=tier, seed=int(seed), table="ndarray", order=j % 4)
 
 
 # ---- oracle-side quadrature ------------------------------------------------------------------------------------
@@ -149,11 +159,12 @@ def run_case(case):
     from abtem.core.constants import kappa
 
     name, el, tier = case["parametrization"], case["element"], case.get("tier", "quick")
-    p = _param(name)
-    V = p.potential(el)
-    Vp = p.projected_potential(el)
-    f = p.scattering_factor(el)
-    fp = p.projected_scattering_factor(el)
+    p = _param(name, case.get("table", "shipped"))
+    # the order in which the four functions are requested must not matter (each request re-derives the scaled parameters)
+    req = ["potential", "projected_potential", "scattering_factor", "projected_scattering_factor"]
+    o = int(case.get("order", 0))
+    fns = {nm: getattr(p, nm)(el) for nm in req[o:] + req[:o]}
+    V, Vp, f, fp = (fns[nm] for nm in req)
     r_lo, r_hi = BOUNDS["r_range_A"]
     k_lo, k_hi = BOUNDS["k_range_invA"]
     n = BOUNDS["grid_points"][tier]
